@@ -34,6 +34,35 @@ class HarnessError(Exception):
     pass
 
 
+class Timeout(BaseException):
+    """raised by time_limit(); a BaseException so that library code catching Exception cannot swallow it"""
+
+
+class time_limit(object):
+    """Hang detector: `with time_limit(20):` raises Timeout if the body runs longer (wall clock, main thread only).
+    Only for operations that normally take milliseconds - the margin is 3-4 orders of magnitude."""
+
+    def __init__(self, seconds):
+        self.seconds = seconds
+
+    def _fire(self, signum, frame):
+        raise Timeout()
+
+    def __enter__(self):
+        import signal
+
+        self._old = signal.signal(signal.SIGALRM, self._fire)
+        signal.setitimer(signal.ITIMER_REAL, self.seconds)
+        return self
+
+    def __exit__(self, *exc):
+        import signal
+
+        signal.setitimer(signal.ITIMER_REAL, 0)
+        signal.signal(signal.SIGALRM, self._old)
+        return False
+
+
 # ----------------------------------------------------------------------------------------------------------
 # importing the code under test from the working tree
 
@@ -206,9 +235,12 @@ class Stats(object):
         self.sample_stride = 1
         self.parts = OrderedDict()
         self.exhaustive_parts = []
+        self.hangs = 0
 
     def add(self, part, case, out):
         self.evaluations += 1
+        if out.status == "violation" and str(out.bucket).startswith("hang:"):
+            self.hangs += 1
         self.status[out.status] += 1
         pc = self.parts.setdefault(part, Counter())
         pc["evaluations"] += 1
@@ -306,13 +338,21 @@ def run_sampled(mod, part, stats, seed, budget):
     check = part.check or mod.check
     strategy = part.source()
 
+    class _Stop(BaseException):
+        pass
+
     @hypothesis.seed(seed)
     @_settings(budget, shrink=False)
     @given(strategy)
     def collect(case):
         stats.add(part.name, case, guarded(check, case))
+        if stats.hangs >= 2:
+            raise _Stop()  # every further hang costs the full time limit: two witnesses are enough
 
-    collect()
+    try:
+        collect()
+    except _Stop:
+        pass
 
 
 SHRINK_SECONDS = float(os.environ.get("VERIF_SHRINK_SECONDS", "20"))
@@ -383,6 +423,8 @@ def run_shard(args):
                 run_sampled(mod, part, stats, pseed, part.budget)
                 new = [b for b in stats.buckets if b not in before and stats.buckets[b]["part"] == part.name]
                 for b in new[:4]:
+                    if str(b).startswith("hang:"):
+                        continue  # shrinking a hang costs the time limit per attempt
                     small, detail = shrink_bucket(mod, part, pseed, part.budget, b)
                     if small is not None and case_size(small) <= case_size(stats.buckets[b]["smallest"]):
                         stats.buckets[b]["smallest"] = small
